@@ -155,6 +155,11 @@ func trustedResourceURLFormat(format string, args map[string]string) (TrustedRes
 		// segments or URL components.
 		return safehtmlutil.QueryEscapeURL(argVal)
 	})
+	if err == nil && safehtmlutil.URLContainsDoubleDotSegment(ret) {
+		// Arguments that are harmless on their own (e.g. "." and ".") can still be assembled into a
+		// ".." dot-segment by adjacent markers or by dots in the format string.
+		err = fmt.Errorf(`TrustedResourceURL %q must not contain ".."`, ret)
+	}
 	return TrustedResourceURL{ret}, err
 }
 
@@ -191,5 +196,10 @@ func TrustedResourceURLAppend(t TrustedResourceURL, s string) (TrustedResourceUR
 	if !safehtmlutil.IsSafeTrustedResourceURLPrefix(t.str) {
 		return TrustedResourceURL{}, fmt.Errorf("cannot append to TrustedResourceURL %q because it has an unsafe prefix", t)
 	}
-	return TrustedResourceURL{t.str + safehtmlutil.QueryEscapeURL(s)}, nil
+	ret := t.str + safehtmlutil.QueryEscapeURL(s)
+	if safehtmlutil.URLContainsDoubleDotSegment(ret) {
+		// Prevent the result from referencing a resource higher up in the path name hierarchy.
+		return TrustedResourceURL{}, fmt.Errorf(`cannot append %q to TrustedResourceURL %q: the result must not contain ".."`, s, t)
+	}
+	return TrustedResourceURL{ret}, nil
 }
